@@ -1,11 +1,11 @@
 package verifsim
 
 import (
-	"sort"
 	"context"
 	"fmt"
 	"os"
 	"path/filepath"
+	"sort"
 	"strings"
 	"testing/synctest"
 
@@ -101,6 +101,8 @@ type e3World struct {
 	env    *callEnv
 	colID  string
 	sdl    string
+	// abandoned: the node is not closed at the end (see close)
+	abandoned bool
 }
 
 func (w *e3World) fail(format string, a ...any) { w.res.HarnessErr = fmt.Sprintf(format, a...) }
@@ -143,6 +145,10 @@ func (w *e3World) start() bool {
 }
 
 func (w *e3World) close() {
+	if w.abandoned {
+		// the node cannot be closed any more (its event bus is blocked): it is left behind with the bubble
+		return
+	}
 	if w.n != nil {
 		w.n.Close()
 	}
